@@ -462,7 +462,12 @@ type Legacy struct {
 	// chunks are ever in flight together and the result does not depend on how the gateway's reader
 	// handles coalesced or split reads (that is C08's subject, checked there with Pipeline = true).
 	Pipeline bool
-	inRaw    *net.TCPConn
+	// FirstWithHead: (set before OpenIn) the first chunk of the RDG_IN_DATA body travels in the same write as the
+	// request head, as a client or proxy that does not wait for the 200 would send it.
+	FirstWithHead []byte
+	// HoldPreamble: (set before OpenIn) do not send the preamble after the 200; SendPreamble does it later.
+	HoldPreamble bool
+	inRaw        *net.TCPConn
 	id       string
 	wmu      sync.Mutex
 }
@@ -534,7 +539,15 @@ func (l *Legacy) OpenIn(t Target, connID string) error {
 	hdr := [][2]string{{"Rdg-Connection-Id", connID}, {"Transfer-Encoding", "chunked"}, {"Cache-Control", "no-cache"}}
 	hdr = append(hdr, t.Headers...)
 	c.SetDeadline(time.Now().Add(10 * time.Second))
-	if err := writeRequest(c, "RDG_IN_DATA", t.path(), t.Addr, hdr); err != nil {
+	if len(l.FirstWithHead) > 0 {
+		var rb bytes.Buffer
+		writeRequest(&bufConn{&rb}, "RDG_IN_DATA", t.path(), t.Addr, hdr)
+		rb.Write(chunk(l.FirstWithHead))
+		if _, err := c.Write(rb.Bytes()); err != nil {
+			c.Close()
+			return err
+		}
+	} else if err := writeRequest(c, "RDG_IN_DATA", t.path(), t.Addr, hdr); err != nil {
 		c.Close()
 		return err
 	}
@@ -568,13 +581,21 @@ func (l *Legacy) OpenIn(t Target, connID string) error {
 		io.Copy(io.Discard, br)
 		close(l.inEOF)
 	}()
-	// preamble, consumed by the gateway's single raw read
+	l.inRaw = rawTCP(c)
+	if l.HoldPreamble {
+		return nil
+	}
+	return l.SendPreamble()
+}
+
+// SendPreamble sends the bytes the gateway's single raw read consumes and waits until they have been consumed.
+func (l *Legacy) SendPreamble() error {
+	c := l.in
 	pre := make([]byte, 64)
 	rand.Read(pre)
 	if _, err := c.Write(pre); err != nil {
 		return err
 	}
-	l.inRaw = rawTCP(c)
 	// The gateway discards whatever its first raw read returns: a chunk that travels with the preamble would be
 	// lost with it. On a busy machine that read can be seconds away, so wait for it much longer than for
 	// ordinary chunks (which may coalesce without harm).
@@ -772,3 +793,15 @@ func RawHTTP(t Target, req []byte, d time.Duration) (resp []byte, err error) {
 	_, err = io.Copy(&b, c)
 	return b.Bytes(), err
 }
+
+// bufConn lets writeRequest render into a buffer.
+type bufConn struct{ b *bytes.Buffer }
+
+func (c *bufConn) Write(p []byte) (int, error)        { return c.b.Write(p) }
+func (c *bufConn) Read(p []byte) (int, error)         { return 0, io.EOF }
+func (c *bufConn) Close() error                       { return nil }
+func (c *bufConn) LocalAddr() net.Addr                { return nil }
+func (c *bufConn) RemoteAddr() net.Addr               { return nil }
+func (c *bufConn) SetDeadline(t time.Time) error      { return nil }
+func (c *bufConn) SetReadDeadline(t time.Time) error  { return nil }
+func (c *bufConn) SetWriteDeadline(t time.Time) error { return nil }
